@@ -17,7 +17,7 @@ SlotOfBackend(x, name) ==
     IF c = {} THEN 0 ELSE CHOOSE k \in c : TRUE
 
 (* the servers of a route backend are the replicas of its backendRefs, weighted as the Weights contract says;
-   a backendRef without weight counts 1 *)
+   a backendRef without weight counts 1; the converter rebalances with 128 as the initial (minimum) weight *)
 BackendBroken(x, b) ==
     LET k == SlotOfBackend(x, b.s) IN
     IF k = 0 THEN "UnknownBackend"
@@ -25,7 +25,7 @@ BackendBroken(x, b) ==
              n == Len(refs) IN
          IF Len(b.grp) # n \/ b.xtr # 0 THEN "Servers"
          ELSE IF \E j \in 1..n : Len(b.grp[j]) # ReplOf(refs[j].s) \/ \E a \in 1..Len(b.grp[j]) : b.grp[j][a] < 0 \/ b.grp[j][a] # b.grp[j][1] THEN "Servers"
-         ELSE LET in == [w |-> [j \in 1..n |-> IF refs[j].w < 0 THEN 1 ELSE refs[j].w], l |-> [j \in 1..n |-> ReplOf(refs[j].s)], iw |-> 1]
+         ELSE LET in == [w |-> [j \in 1..n |-> IF refs[j].w < 0 THEN 1 ELSE refs[j].w], l |-> [j \in 1..n |-> ReplOf(refs[j].s)], iw |-> 128]
                   out == [j \in 1..n |-> IF ReplOf(refs[j].s) = 0 THEN 0 ELSE b.grp[j][1]] IN
               WT!Broken(in, out, "deploy")
 
